@@ -231,6 +231,9 @@ def string_replace_map(line, lower=False):
         if included_keys:
             found_keys = found_keys.union(included_keys)
             for inc_key in included_keys:
+                if inc_key not in string_map:
+                    # Source text that merely looks like one of our keys.
+                    continue
                 entry = entry.replace(inc_key, string_map[inc_key], 1)
             string_map[key] = entry
 
